@@ -1,5 +1,7 @@
 #!/bin/sh
 # usage: tools/try_seed.sh <patch.diff> <ID> [<ID>...]   — apply a seeded change to /repo, run the checks, ALWAYS undo it
+# re-exec under the /repo-state lock
+if [ -z "$TRY_SEED_LOCKED" ]; then TRY_SEED_LOCKED=1 exec /verif/tools/locked.sh env TRY_SEED_LOCKED=1 "$0" "$@"; fi
 patch="$1"; shift
 cd /repo || exit 2
 if ! git diff --quiet; then echo "/repo has uncommitted changes; refusing"; exit 2; fi
